@@ -441,7 +441,12 @@ def transform(fn, overrides=None, _memo=None, merge=True, also=(), safe_calls=()
     code = compile(tree, f"<symx:{fn.__module__}.{fn.__qualname__}>", "exec")
     loc = {}
     exec(code, g, loc)
-    newf = loc[cls_name].__dict__[fd.name] if cls_name else loc[fd.name]
+    if cls_name:
+        cd = loc[cls_name].__dict__
+        mangled = f"_{cls_name.lstrip('_')}{fd.name}" if fd.name.startswith("__") and not fd.name.endswith("__") else fd.name
+        newf = cd[fd.name] if fd.name in cd else cd[mangled]
+    else:
+        newf = loc[fd.name]
     if isinstance(newf, (staticmethod, classmethod)):
         newf = newf.__func__
     if cls_name:
